@@ -115,6 +115,20 @@ theorem readonly_step (f : FsCfg) (hro : f.readOnly = true) (w0 : World) (s : Sy
           · simp [hd]; rfl
           · simp [hd, hmem.2]; rfl
         rw [this]; exact ⟨hw, hh⟩
+    case hwriteString id data =>
+      split
+      · exact ⟨hw, hh⟩
+      · rename_i h hg
+        have hmem : h.wbuf = none ∧ h.flags.write = false := by
+          rcases getHandle_mem s id h hg with hm' | ⟨i, hm'⟩
+          · exact hh _ hm'
+          · exact hh _ hm'
+        have : hWrite f h data s.w = (s.w, .error (if h.info.isDir then .isDirectory else .permission)) := by
+          unfold hWrite
+          by_cases hd : h.info.isDir = true
+          · simp [hd]; rfl
+          · simp [hd, hmem.2]; rfl
+        rw [this]; exact ⟨hw, hh⟩
     case hsync id =>
       split
       · exact ⟨hw, hh⟩
